@@ -516,6 +516,15 @@ def spec_expect(recipe):
     return exp
 
 
+ODD_ROOT_NAMES = ["proj", "proj", "pr[v2]", "p*x", "q?y", "sp ace", "ünï", "a[b", "x]y[", "{z}", "dot.d", "da-sh"]
+
+
+def odd_root(scratch, tag, k):
+    """(top, root): the project directory gets a name with blanks / non-ASCII / glob metacharacters now and then."""
+    top = scratch / f"{tag}-{k}"
+    return top, top / ODD_ROOT_NAMES[k % len(ODD_ROOT_NAMES)]
+
+
 def place_lint(rng, root):
     """Where a read-only command is run from and how --root is spelled: -> (cwd, global args without --no-multiprocessing)."""
     root = str(root)
